@@ -836,6 +836,8 @@ class Pattern(Task):
                 occ = [(t + dt, p) for t, p in base]
                 if rng.random() < 0.3 and len(occ) > 1:
                     occ = occ[:-1]
+                if rng.random() < 0.12:
+                    occ = occ + [rng.choice(occ)]      # the same (onset, pitch) listed twice
                 occs.append(occ)
             pats.append(occs)
         return pats
